@@ -1,0 +1,8 @@
+//go:build !verif
+
+// Package verifhook provides named instrumentation points used by external
+// verification harnesses. Without the "verif" build tag every point is a no-op.
+package verifhook
+
+// Point marks a named instrumentation point. No-op unless built with -tags verif.
+func Point(name string) {}
